@@ -95,6 +95,31 @@ def op_save(live, op):
     return "saved"
 
 
+def op_save_stream(live, op):
+    """Save into ONE file-like object kept for the whole history (a caller re-using its BytesIO): what the stream
+    then holds must be a readable zip whose members equal those of a save into a fresh stream."""
+    st = getattr(live, "stream", None)
+    if st is None:
+        st = live.stream = io.BytesIO()
+    live.prs.save(st)
+    data = st.getvalue()
+    live.saves.append(b"stream:%d" % len(data))      # part of the canonical state (see System.canon)
+    want = F.zip_members(F.save_bytes(live.prs))
+    try:
+        got = F.zip_members(data)
+    except Exception as e:  # noqa: BLE001
+        return "UNEXPECTED:%s: the re-used stream is not a readable zip after save (%d bytes)" % (type(e).__name__, len(data))
+    if got != want:
+        diff = sorted(set(got) ^ set(want)) or sorted(k for k in got if got[k] != want.get(k))
+        return "UNEXPECTED:StreamSaveDiffers: members of the re-used stream differ from a fresh save: %s" % diff[:4]
+    if op.get("reopen"):
+        # the stream's position is left where the library left it (its end): rewinding without truncating before
+        # a smaller save is the caller's mistake (zipfile's "w" mode does not truncate), not the library's
+        live.prs = F.open_prs(st.getvalue())
+        return "reopened"
+    return "saved"
+
+
 def op_save_reopen(live, op):
     blob = F.save_bytes(live.prs)
     live.saves.append(blob)
@@ -157,7 +182,11 @@ def op_add_movie(live, op):
     if s is None:
         return SKIP
     poster = io.BytesIO(img(op["poster"])) if op.get("poster") else None
-    s.shapes.add_movie(F.MOVIE, EMU, EMU, EMU, EMU, poster_frame_image=poster, mime_type="video/mp4")
+    movie = F.MOVIE
+    if op.get("name"):
+        # the media part takes its extension from the file NAME (e.g. CLIP.MP4)
+        movie = F.image_file(os.path.join("movies", op["name"]), F.read_bytes(F.MOVIE))
+    s.shapes.add_movie(movie, EMU, EMU, EMU, EMU, poster_frame_image=poster, mime_type="video/mp4")
     return "ok"
 
 
@@ -341,6 +370,18 @@ def op_remove_layout(live, op):
     return "removed"
 
 
+def op_remove_layout_cross(live, op):
+    """Remove a layout of the LAST master through the FIRST master's collection: documented ValueError, no change."""
+    masters = live.prs.slide_masters
+    if len(masters) < 2 or not len(masters[-1].slide_layouts):
+        return SKIP
+    try:
+        masters[0].slide_layouts.remove(masters[-1].slide_layouts[-1])
+    except ValueError:
+        return "raised:ValueError"
+    return "UNEXPECTED:NoError: a layout of another master was removed through this master's collection"
+
+
 def op_core_props(live, op):
     cp = live.prs.core_properties
     if op.get("set"):
@@ -401,7 +442,8 @@ OPS = {
     "replace_data": op_replace_data, "add_ole": op_add_ole, "add_table": op_add_table,
     "add_group": op_add_group, "add_connector": op_add_connector, "add_freeform": op_add_freeform,
     "notes_access": op_notes_access, "notes_text": op_notes_text, "hlink_shape": op_hlink_shape,
-    "hlink_run": op_hlink_run, "target_slide": op_target_slide, "remove_layout": op_remove_layout,
+    "hlink_run": op_hlink_run, "target_slide": op_target_slide, "remove_layout": op_remove_layout, "remove_layout_cross": op_remove_layout_cross,
+    "save_stream": op_save_stream,
     "core_props": op_core_props, "bad_index": op_bad_index, "bad_merge": op_bad_merge,
     "insert_picture_ph": op_insert_picture_ph,
 }
